@@ -248,14 +248,16 @@ pub fn run_case(block: &Path, c: &RmCase, r: &mut Report) {
     };
     let up = ux(&given);
     set_case(&cj.to_string());
-    let res = if variant == 3 {
-        catch(|| {
-            let d = tiny_std::fs::Directory::open(&up).map_err(|e| format!("open: {e}"))?;
-            d.remove_all().map_err(|e| format!("{e}"))
-        })
-    } else {
-        catch(|| tiny_std::fs::remove_dir_all(&up).map_err(|e| format!("{e}")))
-    };
+    let res = seam(|| {
+        if variant == 3 {
+            catch(|| {
+                let d = tiny_std::fs::Directory::open(&up).map_err(|e| format!("open: {e}"))?;
+                d.remove_all().map_err(|e| format!("{e}"))
+            })
+        } else {
+            catch(|| tiny_std::fs::remove_dir_all(&up).map_err(|e| format!("{e}")))
+        }
+    });
     clear_case();
     let _ = std::env::set_current_dir("/");
     let opname = if variant == 3 { "remove_all" } else { "remove_dir_all" };
@@ -290,7 +292,16 @@ pub fn run_case(block: &Path, c: &RmCase, r: &mut Report) {
                 r.note(format!("{vname} on {label}: Err({e}) (accepted: the statement constrains success)"));
             }
             match &outside_diff {
-                None => r.outcome("err"),
+                None => r.outcome(if dt_unknown_mode() { "dt-unknown:types-unknown,remove-fails" } else { "err" }),
+                Some(d) if dt_unknown_mode() => {
+                    // whatever is returned: what a link inside the tree points to is not the tree
+                    r.outcome("err:VIOLATION");
+                    r.violation(
+                        &format!("C14:{opname}:outside-changed(dt-unknown)"),
+                        format!("{vname} on {label}, directory records without a type: returned Err({e}) and outside the tree {d}"),
+                        cj.clone(),
+                    );
+                }
                 Some(d) => {
                     r.outcome("err:outside-touched");
                     r.note(format!("{vname} on {label}: returned Err({e}) AND outside the tree {d} (outside the statement, not judged)"));
@@ -331,7 +342,8 @@ pub fn run_case(block: &Path, c: &RmCase, r: &mut Report) {
             }
             if let Some(d) = &outside_diff {
                 okay = false;
-                r.violation(&format!("C14:{opname}:outside-touched"), format!("{vname} on {label}: returned Ok and outside the tree {d}"), cj.clone());
+                let key = if dt_unknown_mode() { format!("C14:{opname}:outside-changed(dt-unknown)") } else { format!("C14:{opname}:outside-touched") };
+                r.violation(&key, format!("{vname} on {label}: returned Ok and outside the tree {d}"), cj.clone());
             }
             let has_links = before.iter().any(|(k, n)| k.starts_with(b"root/") && matches!(n, Node::Link(_)));
             let depth = before.keys().filter(|k| k.starts_with(b"root/")).map(|k| k.iter().filter(|&&b| b == b'/').count()).max().unwrap_or(0);
@@ -383,6 +395,10 @@ pub fn phase(args: &Args, master: &Path) -> Report {
     r.merge(r3);
     r.rule.push_str(" ");
     r.rule.push_str(&crate::rmarg::rule());
+    let r4 = crate::dtunknown::run_removal(args, master);
+    r.merge(r4);
+    r.rule.push_str(" ");
+    r.rule.push_str(&crate::dtunknown::rule_removal(args.thorough));
     r.bound("cases", n);
     r.bound("max_nodes", maxn);
     r.bound("max_depth", 3);
